@@ -122,9 +122,11 @@ def vec_handles(spec_vars):
     for d in spec_vars:
         if d["kind"] == "vector":
             out.append(["vec", d["name"]])
+            out.append(["vrev", d["name"]])
             if d["n"] >= 3:
                 out.append(["vslice", d["name"], 0, 2])
                 out.append(["vslice", d["name"], 1, d["n"]])
+                out.append(["vstride", d["name"], 2])
         elif d["kind"] == "matrix":
             out.append(["mrow", d["name"], 0])
             out.append(["mcol", d["name"], 1])
@@ -305,8 +307,15 @@ def gen_vec_con(r, sp):
     vhs = vec_handles(sp["vars"])
     if not vhs:
         return None
-    vec, _ = r.choice(vhs)
+    vec, names = r.choice(vhs)
     sense = r.choice(["<=", ">="])
+    if r.random() < 0.3:
+        # exactly the declared bound, written again as explicit constraints (x >= 0 on a vector with lb=0)
+        at = S.elem_attrs(S.new_shadow(sp))[names[0]]
+        if sense == ">=" and at[0] is not None:
+            return {"k": "v", "lhs": vec, "sense": ">=", "rhs": at[0]}
+        if sense == "<=" and at[1] is not None:
+            return {"k": "v", "lhs": vec, "sense": "<=", "rhs": at[1]}
     return {"k": "v", "lhs": vec, "sense": sense, "rhs": r.choice([0.0, 0.25, 0.5]) if sense == ">=" else r.choice([2.0, 3.0, 8.0])}
 
 
@@ -333,6 +342,8 @@ def gen_pool(r, kinds=("lin", "quad", "nl"), layout=None, int_frac=0.0, nobj=5, 
              positive=False, deep=0, name="m"):
     """A model pool: variables, parameters, objective exprs o*, constraints c*."""
     sp = {"name": name, "vars": gen_vars(r, layout, int_frac, positive), "params": [], "exprs": {}, "cons": {}}
+    if r.random() < 0.5:
+        sp["share_views"] = True
     pleaves = []
     for i in range(params):
         if r.random() < 0.7 or i == 0:
@@ -472,7 +483,56 @@ def gen_lp_rotation(r):
     return {"knobs": dict(DEFAULT_KNOBS), "ops": ops}
 
 
+def gen_single_source(r):
+    """Objective (and first constraints) built on ONE view object of one vector -- the fast path of
+    variable discovery keeps the view's own order (reversed, strided) -- then constraints that are
+    not built from that object (general path: sorted order), with solves in between."""
+    from .world import DEFAULT_KNOBS
+
+    n = r.choice([3, 4])
+    lb, ub = gen_bounds(r, finite=1.0)
+    view = r.choice([["vrev", "v"], ["vrev", "v"], ["vec", "v"], ["vstride", "v", 2], ["vslice", "v", 1, n]])
+    sp = {"name": "ss", "share_views": True, "vars": [{"kind": "vector", "name": "v", "n": n, "lb": lb, "ub": ub, "domain": "continuous"},
+                                                       {"kind": "scalar", "name": "x", "lb": 0.0, "ub": 3.0, "domain": "continuous"}],
+          "params": [], "exprs": {}, "cons": {}}
+    m = len(S.vec_names(sp, view))
+    w = [r.choice(COEFS) for _ in range(m)]
+    sp["exprs"] = {
+        "o0": ["+", ["dot", view, view], ["lincomb", w, view]],
+        "o1": ["lincomb", w, view],
+        "o2": ["-", ["dot", view, view], ["vsum", view]],
+        "o3": ["+", ["dot", ["vec", "v"], ["vec", "v"]], ["var", "x"]],
+    }
+    sp["cons"] = {
+        "cs": {"k": "s", "lhs": ["vsum", view], "sense": ">=", "rhs": ["num", r.choice([0.5, 1.0])]},
+        "cl": {"k": "s", "lhs": ["lincomb", [r.choice(POS) for _ in range(m)], view], "sense": "<=", "rhs": ["num", r.choice([2.0, 4.0, 8.0])]},
+        "ce": {"k": "s", "lhs": ["vel", "v", 0], "sense": "<=", "rhs": ["num", r.choice([0.5, 1.0, 3.0])]},
+        "cx": {"k": "s", "lhs": ["+", ["vel", "v", n - 1], ["var", "x"]], "sense": ">=", "rhs": ["num", 0.5]},
+        "cv": {"k": "v", "lhs": ["vec", "v"], "sense": "<=", "rhs": (ub if ub is not None else 4.0)},
+    }
+    sp["expr_order"] = sorted(sp["exprs"])
+    sp["con_order"] = sorted(sp["cons"])
+    meths = ["SLSQP", "trust-constr", "auto", "L-BFGS-B", "linprog", "auto"]
+    ops = [["new_model", 0, sp], [r.choice(["minimize", "minimize", "maximize"]), 0, r.choice(["o0", "o0", "o1", "o2"])]]
+    for c in r.sample(["cs", "cl"], r.choice([0, 0, 1, 2])):
+        ops.append(["subject_to", 0, c])
+    ops.append(r.choice([["read_variables", 0], ["solve", 0, cap_iterations(r, {"method": r.choice(meths)})]]))
+    ops.append(["solve", 0, cap_iterations(r, {"method": r.choice(meths)})])
+    for _ in range(r.randint(1, 3)):
+        k = r.random()
+        if k < 0.6:
+            ops.append(["subject_to", 0, r.choice(["ce", "cx", "cv", "cs"])])
+        elif k < 0.8:
+            ops.append([r.choice(["minimize", "maximize"]), 0, r.choice(sorted(sp["exprs"]))])
+        else:
+            ops.append(["read_variables", 0])
+        ops.append(["solve", 0, cap_iterations(r, {"method": r.choice(meths)})])
+    return {"knobs": dict(DEFAULT_KNOBS), "ops": ops}
+
+
 def gen_c13(r, int_frac=0.0, strict_frac=0.0, maxlen=None):
+    if int_frac == 0.0 and r.random() < 0.08:
+        return gen_single_source(r)
     if int_frac == 0.0 and r.random() < 0.1:
         return gen_redeclare(r)
     if int_frac == 0.0 and r.random() < 0.1:
@@ -524,9 +584,12 @@ def gen_c13(r, int_frac=0.0, strict_frac=0.0, maxlen=None):
             lb, ub, dom = attrs[e]
             if dom == "binary" and r.random() < 0.7:
                 continue
+            relax = r.random() < 0.35  # widen the box instead of moving the bound towards the other one
             if r.random() < 0.5:
                 base = ub if ub is not None else 5.0
                 nb = base - r.choice([0.25, 0.5, 1.0, 1.5, 2.5])
+                if relax and lb is not None:
+                    nb = lb - r.choice([0.5, 1.0, 3.0, 6.0])
                 if r.random() < 0.15:
                     nb = None
                 ops.append(["set_lb", 0, e, nb])
@@ -534,6 +597,8 @@ def gen_c13(r, int_frac=0.0, strict_frac=0.0, maxlen=None):
             else:
                 base = lb if lb is not None else -5.0
                 nb = base + r.choice([0.25, 0.5, 1.0, 1.5, 2.5])
+                if relax and ub is not None:
+                    nb = ub + r.choice([0.5, 1.0, 3.0, 6.0])
                 if r.random() < 0.15:
                     nb = None
                 ops.append(["set_ub", 0, e, nb])
@@ -579,6 +644,8 @@ C12_METHODS = ["auto", "SLSQP", "trust-constr", "L-BFGS-B", "SLSQP", "trust-cons
 def gen_c12_pool(r, deep=0):
     layout = r.choice(["A", "B", "B", "E", "C", "D"])
     sp = {"name": "pm", "vars": gen_vars(r, layout), "params": [], "exprs": {}, "cons": {}}
+    if r.random() < 0.5:
+        sp["share_views"] = True
     np_ = r.randint(1, 3)
     pl = []
     for i in range(np_):
@@ -632,6 +699,10 @@ def gen_c12_pool(r, deep=0):
     cons["c2"] = gen_lin_con(r, sp, core)
     cons["c3"] = {"k": "s", "lhs": L(r.choice(core)), "sense": r.choice([">=", "<="]), "rhs": r.choice(pl)}
     cons["c4"] = {"k": "s", "lhs": ["+", ["**", L(core[0]), ["num", 2]], ["*", r.choice(pl), L(core[-1])]], "sense": "<=", "rhs": ["num", r.choice([4.0, 9.0, 25.0])]}
+    # constraints without any decision variable: their truth changes with Parameter.set alone
+    pa, pb = r.choice(pl), r.choice(pl)
+    cons["cp0"] = {"k": "s", "lhs": pa, "sense": r.choice([">=", "<="]), "rhs": pb if r.random() < 0.6 else ["num", r.choice(PGRID)]}
+    cons["cp1"] = {"k": "s", "lhs": ["+", r.choice(pl), ["num", 0.0]], "sense": "==", "rhs": ["num", r.choice(PGRID)]}
     # a Parameter scaling a whole vector reduction (vectorised jacobian_row / gradient rules)
     vhs = vec_handles(sp["vars"])
     if vhs:
@@ -1005,9 +1076,88 @@ def _reorder_script(r, ops):
     return out
 
 
+def gen_c14_shared(r, tier="quick"):
+    """Two (or three) Problems built on the SAME expression objects: same objective object with
+    opposite senses, Hessian / non-Hessian methods interleaved.  What one Problem computed for an
+    expression must not leak into the other through anything keyed by the expression alone."""
+    knobs = gen_knobs(r, 0.6)
+    sp = gen_any_pool(r)
+    onames = [e for e in sorted(sp["exprs"]) if e.startswith("o")]
+    ops = [["new_model", 0, sp], ["alias_model", 1, 0]]
+    mids = [0, 1]
+    if r.random() < 0.3:
+        ops.append(["alias_model", 2, 0])
+        mids.append(2)
+    o = r.choice(onames)
+    senses = ["minimize", "maximize"]
+    r.shuffle(senses)
+    for i, mid in enumerate(mids):
+        ops.append([senses[i % 2], mid, o if r.random() < 0.8 else r.choice(onames)])
+        for c in r.sample(sorted(sp["cons"]), r.choice([0, 0, 1, 2])):
+            ops.append(["subject_to", mid, c])
+    meths = ["trust-constr", "trust-constr", "Newton-CG", "SLSQP", "auto", "L-BFGS-B"]
+    for _ in range(r.randint(3, 7)):
+        mid = r.choice(mids)
+        if r.random() < 0.15 and sp["params"]:
+            ops.append(gen_param_op(r, sp))
+        ops.append(["solve", mid, cap_iterations(r, {"method": r.choice(meths)})])
+    return {"knobs": knobs, "ops": ops}
+
+
+def gen_c14_buffer(r, tier="quick"):
+    """Unrelated models built one after the other on ONE preallocated matrix buffer that the caller
+    overwrites in place; each model is dropped before the next one reuses the buffer."""
+    from .world import DEFAULT_KNOBS
+
+    ops = []
+    n = r.choice([2, 3])
+    for j in range(r.randint(3, 7)):
+        mid = 300 + j
+        Q = [[0.0] * n for _ in range(n)]
+        for i in range(n):
+            Q[i][i] = r.choice([1.0, 2.0, 3.0, 5.0])
+        if r.random() < 0.7:
+            a, b = r.sample(range(n), 2)
+            Q[a][b] = r.choice([0.5, -0.5, 1.5])  # not symmetric: the gradient needs Q + Q.T
+        vname = r.choice(["v", "v", "u"])
+        sp = {
+            "name": "buf", "shared_q": "cov",
+            "vars": [{"kind": "vector", "name": vname, "n": n, "lb": -3.0, "ub": 3.0, "domain": "continuous"},
+                     {"kind": "scalar", "name": "x", "lb": -2.0, "ub": 2.0, "domain": "continuous"}],
+            "params": [],
+            "exprs": {
+                "oq": ["+", ["quad", ["vec", vname], Q], ["**", ["-", ["var", "x"], ["num", r.choice(TARGETS)]], ["num", 2]]],
+                "ob": ["quad", ["vec", vname], Q],
+                "on": ["-", ["*", ["num", 0.5], ["quad", ["vec", vname], Q]], ["lincomb", [r.choice(COEFS) for _ in range(n)], ["vec", vname]]],
+            },
+            "cons": {"c0": {"k": "s", "lhs": ["vsum", ["vec", vname]], "sense": ">=", "rhs": ["num", r.choice([0.5, 1.0])]}},
+        }
+        sp["expr_order"] = sorted(sp["exprs"])
+        sp["con_order"] = ["c0"]
+        ops.append(["new_model", mid, sp])
+        e = r.choice(["oq", "on", "ob", "oq"])
+        order = [f"{vname}[{i}]" for i in range(n)] + ["x"]
+        hid = "h0"
+        ops.append(["compile", mid, hid, r.choice(["grad", "jac", "symgrad", "hess", "cexpr"]),
+                    {"e": e, "es": [e], "order": order, "wrt": order[0]}])
+        ops.append(["call", mid, hid, gen_point(r, sp)])
+        if r.random() < 0.6:
+            ops.append(["minimize", mid, e])
+            if r.random() < 0.5:
+                ops.append(["subject_to", mid, "c0"])
+            ops.append(["solve", mid, cap_iterations(r, {"method": r.choice(["SLSQP", "trust-constr", "auto", "L-BFGS-B"])})])
+        ops.append(["drop_model", mid])
+    return {"knobs": dict(DEFAULT_KNOBS), "ops": ops}
+
+
 def gen_c14(r, tier="quick"):
-    if r.random() < 0.15:
+    k = r.random()
+    if k < 0.15:
         return gen_c14_churn(r, tier)
+    if k < 0.25:
+        return gen_c14_shared(r, tier)
+    if k < 0.32:
+        return gen_c14_buffer(r, tier)
     knobs = gen_knobs(r, 0.4)
     M = gen_any_pool(r)
     ops = []
@@ -1306,9 +1456,50 @@ def gen_c06_param(r):
     return {"knobs": knobs, "ops": ops}
 
 
+def gen_c06_bounds(r):
+    """An LP whose constraints repeat declared bounds (x >= 0 on a vector declared with lb=0), solved,
+    then the declared bound is relaxed and the LP solved again: the explicit constraint now binds."""
+    from .world import DEFAULT_KNOBS
+
+    n = r.choice([2, 3, 4])
+    lb = r.choice([0.0, 0.0, 0.5, -1.0])
+    ub = lb + r.choice([2.0, 4.0, 10.0])
+    sp = {"name": "bd", "vars": [{"kind": "vector", "name": "v", "n": n, "lb": lb, "ub": ub, "domain": "continuous"},
+                                 {"kind": "scalar", "name": "x", "lb": lb, "ub": ub, "domain": "continuous"}],
+          "params": [], "exprs": {}, "cons": {}}
+    w = [r.choice(POS) for _ in range(n)]
+    sp["exprs"] = {"olo": ["+", ["lincomb", w, ["vec", "v"]], ["var", "x"]], "ohi": ["neg", ["+", ["vsum", ["vec", "v"]], ["*", ["num", 2.0], ["var", "x"]]]]}
+    sp["cons"] = {
+        "blo": {"k": "v", "lhs": ["vec", "v"], "sense": ">=", "rhs": lb},
+        "bhi": {"k": "v", "lhs": ["vec", "v"], "sense": "<=", "rhs": ub},
+        "bx": {"k": "s", "lhs": ["var", "x"], "sense": ">=", "rhs": ["num", lb]},
+        "bxh": {"k": "s", "lhs": ["var", "x"], "sense": "<=", "rhs": ["num", ub]},
+        "cs": {"k": "s", "lhs": ["+", ["vsum", ["vec", "v"]], ["var", "x"]], "sense": "<=", "rhs": ["num", ub * (n + 1) + 5.0]},
+    }
+    sp["expr_order"] = sorted(sp["exprs"])
+    sp["con_order"] = sorted(sp["cons"])
+    lo = r.random() < 0.5
+    ops = [["new_model", 0, sp], ["minimize", 0, "olo" if lo else "ohi"]]
+    for c in (["blo", "bx"] if lo else ["bhi", "bxh"]) + (["cs"] if r.random() < 0.5 else []):
+        ops.append(["subject_to", 0, c])
+    lpm = ["auto", "linprog", "highs-ds", "highs-ipm", "highs"]
+    ops.append(["solve", 0, {"method": r.choice(lpm)}])
+    names = S.all_element_names(sp)
+    for e in r.sample(names, r.randint(1, len(names))):
+        ops.append(["set_lb", 0, e, lb - r.choice([1.0, 3.0, 5.0])] if lo else ["set_ub", 0, e, ub + r.choice([1.0, 3.0, 5.0])])
+    ops.append(["solve", 0, {"method": r.choice(lpm)}])
+    if r.random() < 0.5:
+        ops.append(["solve", 0, cap_iterations(r, {"method": r.choice(["SLSQP", "trust-constr", "auto"])})])
+    return {"knobs": dict(DEFAULT_KNOBS), "ops": ops}
+
+
 def gen_c06(r, tier="quick", c07=False):
     if not c07 and r.random() < 0.15:
         return gen_c06_param(r)
+    if not c07 and r.random() < 0.07:
+        return gen_c06_bounds(r)
+    if r.random() < 0.06:
+        return gen_single_source(r)
     knobs = gen_knobs(r, 0.7)
     kinds = r.choice([("lin",), ("lin", "quad"), ("quad", "nl"), ("lin", "quad", "nl")])
     parametric = r.random() < 0.25
@@ -1386,7 +1577,13 @@ def gen_c06(r, tier="quick", c07=False):
             e = r.choice(sorted(S.problem_vars(_state_after(ops)), key=S.natural_key) or ["w"])
             at = S.elem_attrs(_state_after(ops))[e]
             if at[2] != "binary":
-                if r.random() < 0.5:
+                if r.random() < 0.4 and (at[0] is not None or at[1] is not None):
+                    # relax a declared bound (rows that were only implied by it matter again)
+                    if at[0] is not None and (at[1] is None or r.random() < 0.5):
+                        ops.append(["set_lb", 0, e, at[0] - r.choice([1.0, 3.0, 6.0]) if r.random() < 0.8 else None])
+                    else:
+                        ops.append(["set_ub", 0, e, at[1] + r.choice([1.0, 3.0, 6.0]) if r.random() < 0.8 else None])
+                elif r.random() < 0.5:
                     ops.append(["set_lb", 0, e, (at[1] if at[1] is not None else 4.0) - r.choice([0.5, 1.0, 2.0])])
                 else:
                     ops.append(["set_ub", 0, e, (at[0] if at[0] is not None else -4.0) + r.choice([0.5, 1.0, 2.0])])
@@ -1467,7 +1664,13 @@ def gen_fault(r, kmax=40, lp=False):
     if k < 0.3:
         return {"site": "exit", "exc": exc}
     kk = r.choice([1, 1, 2, 2, 3, 4, 5, 7, 9, 12, 16, 25, kmax])
-    if k < 0.5:
+    if k < 0.42:
+        # a compiled callable raises when optyx itself evaluates it after the solver returned
+        # (post-solve feasibility check), or at its n-th evaluation overall
+        if r.random() < 0.6:
+            return {"site": "eval", "after_exit": r.choice([1, 1, 2, 3, 4]), "exc": exc}
+        return {"site": "eval", "k": r.choice([1, 2, 3, 5, 8, 13, 30]), "exc": exc}
+    if k < 0.6:
         # the callback raises part-way through its own evaluation (j-th line executed inside optyx code)
         return {"site": "cbi", "k": r.choice([1, 1, 1, 2, 2, 3, 4, 6]), "j": r.choice([1, 2, 2, 3, 3, 4, 5, 6, 8, 12]), "exc": exc}
     return {"site": "cb", "k": kk, "exc": exc}
@@ -1501,9 +1704,13 @@ def gen_c20(r, tier="quick"):
         fault["entry"] = 1
         if fault["site"] in ("cb", "cbi"):
             fault["k"] += 4
+    if r.random() < 0.25:
+        ops.append(["swap_hook"])  # the application installs another showwarning hook before this solve
     ops.append(with_fault(sc["target"], fault, reclimit, peers))
     if r.random() < 0.25:
         ops.append(with_fault(sc["target"], gen_fault(r, lp=lp_target)))  # double fault
+    if r.random() < 0.15:
+        ops.append(["swap_hook"])
     ops.extend(sc["suffix"])
     return {"knobs": knobs, "ops": ops}
 
